@@ -72,6 +72,17 @@ def check_module(m, expect):
                     bad("fn-returns-&mut", "%s::%s -> %s" % (tr or T, name, f["ret"]))
             if f["unsafe_blocks"]:
                 bad("unsafe-block", "%s::%s" % (tr or T, name))
+            for e in f["events"]:
+                # the generated code never needs to borrow the field mutably or assign to it, whatever the receiver
+                if "mut_borrow_of_field" in e and e["mut_borrow_of_field"].replace(" ", "") in ("self", "(*self)", "this", "value", "t", "s"):
+                    bad("mutable-borrow-of-inner-field", "%s::%s takes &mut %s.0" % (tr or T, name, e["mut_borrow_of_field"]))
+                if "assign_to_field" in e:
+                    bad("assignment-to-inner-field", "%s::%s assigns to %s.0" % (tr or T, name, e["assign_to_field"]))
+            if self_is_newtype and f["receiver"] == "mut self" and T in f["ret"].replace("Self", T):
+                bad("by-value-mut-receiver-returning-the-type", "%s::%s(mut self) -> %s" % (tr or T, name, f["ret"]))
+            for mp in f.get("mut_ref_params", []):
+                if T in mp.replace("Self", T) and "Formatter" not in mp:
+                    bad("fn-takes-&mut-newtype", "%s::%s(%s)" % (tr or T, name, mp))
             if f["transmute"]:
                 bad("transmute", "%s::%s" % (tr or T, name))
             # a public fn outside the documented API is not a violation by itself: if it yields the type it must do so
